@@ -1268,17 +1268,20 @@ def _unit_axes_only(new_shape: ast.AST, arr: str, du: DefUse, nid: int) -> Tuple
                 parts.append(e)
         flat(v)
         ones, rest = [], []
+        SEQ = (ast.List, ast.Tuple)      # [1]*k + [n] and (1,)*k + (n,) are the same shape
         for p in parts:
-            if isinstance(p, ast.BinOp) and isinstance(p.op, ast.Mult) and \
-                    isinstance(p.left, ast.List) and len(p.left.elts) == 1 and \
-                    isinstance(p.left.elts[0], ast.Constant) and p.left.elts[0].value == 1:
+            rep = None
+            if isinstance(p, ast.BinOp) and isinstance(p.op, ast.Mult):
+                rep = p.left if isinstance(p.left, SEQ) else (p.right if isinstance(p.right, SEQ) else None)
+            if rep is not None and len(rep.elts) == 1 and \
+                    isinstance(rep.elts[0], ast.Constant) and rep.elts[0].value == 1:
                 ones.append(p)
-            elif isinstance(p, ast.List) and all(isinstance(e, ast.Constant) and e.value == 1
-                                                 for e in p.elts):
+            elif isinstance(p, SEQ) and p.elts and all(isinstance(e, ast.Constant) and e.value == 1
+                                                       for e in p.elts):
                 ones.append(p)
             else:
                 rest.append(p)
-        if len(rest) == 1 and isinstance(rest[0], ast.List) and len(rest[0].elts) == 1:
+        if len(rest) == 1 and isinstance(rest[0], SEQ) and len(rest[0].elts) == 1:
             n_expr = norm(expand(du, nid, rest[0].elts[0]))
             ds = du.reaching(nid, arr)
             if ds and all(d.value is not None and isinstance(d.value, ast.Call)
